@@ -91,7 +91,8 @@ fn real_run<C: frost_rerandomized::RandomizedCiphersuite>(prop: &str, p: &Params
     let mut fails = lab.failures.clone();
     if r.is_err() {
         let m = symlab::take_panic().unwrap_or_default();
-        if m.contains("/scen/src/") || m.contains("/scen-tr/src/") || m.contains("/symlab/src/") {
+        let lookup = m.contains("no entry found for key") || m.contains("index out of bounds") || m.contains("on a `None` value") || m.contains("range end index") || m.contains("range start index") || m.contains("out of range for slice");
+        if (m.contains("/scen/src/") || m.contains("/scen-tr/src/") || m.contains("/symlab/src/")) && !lookup {
             // a panic of the harness itself is no statement about the code under test:
             // the run is reported as unusable (inconclusive), never as a violation
             eprintln!("harness panic in a concrete run: {m}");
@@ -108,7 +109,8 @@ fn real_run_tr(p: &Params, seed: u64, model: &[(String, String)]) -> (u64, Vec<S
     let mut fails = lab.failures.clone();
     if r.is_err() {
         let m = symlab::take_panic().unwrap_or_default();
-        if m.contains("/scen/src/") || m.contains("/scen-tr/src/") || m.contains("/symlab/src/") {
+        let lookup = m.contains("no entry found for key") || m.contains("index out of bounds") || m.contains("on a `None` value") || m.contains("range end index") || m.contains("range start index") || m.contains("out of range for slice");
+        if (m.contains("/scen/src/") || m.contains("/scen-tr/src/") || m.contains("/symlab/src/")) && !lookup {
             // a panic of the harness itself is no statement about the code under test:
             // the run is reported as unusable (inconclusive), never as a violation
             eprintln!("harness panic in a concrete run: {m}");
